@@ -745,7 +745,15 @@ func TestC22(t *testing.T) {
 	runCase(t, r, 5, []opSpec{{Kind: "remove-pod", A: "p", Fault: nf, Pause: 64}}, map[string]any{"corpus": "removepod-down-nodes"})
 	runCase(t, r, 6, []opSpec{{Kind: "remove-pod", A: "p", Fault: nf, Pause: 64}}, map[string]any{"corpus": "removepod-down-nodes"})
 	runCase(t, r, 6, []opSpec{{Kind: "remove-pod", A: "q", Fault: nf, Pause: 64}, {Kind: "remove-node", A: "m", Fault: nf, Pause: 64}}, map[string]any{"corpus": "removepod-down-nodes"})
-	emitted := 13
+	// create whose instance fails (store.AddWorkload, faultable call 4) runs the rollback of its allocation:
+	// GetNode, pod lock, rmgr.RollbackAlloc, unlock (the lock events are part of the compared call sequence);
+	// alone, and with RemoveNode of that node running completely right before the rollback / before the record removal
+	runCase(t, r, 2, []opSpec{{Kind: "create", A: "n", Fault: 4, Pause: 64}}, map[string]any{"corpus": "create-rollback"})
+	for _, pz := range []int{7, 8} {
+		runCase(t, r, 2, []opSpec{{Kind: "create", A: "n", Fault: 4, Pause: pz}, {Kind: "remove-node", A: "n", Fault: nf, Pause: 64}}, map[string]any{"corpus": "create-rollback-removenode"})
+	}
+	runCase(t, r, 4, []opSpec{{Kind: "create", A: "n", Fault: 4, Pause: 8}, {Kind: "remove-node", A: "m", Fault: nf, Pause: 64}}, map[string]any{"corpus": "create-rollback-removenode"})
+	emitted := 17
 	gen := func() opSpec {
 		switch rng.Intn(8) {
 		case 0:
